@@ -51,11 +51,14 @@ def run(ctx):
                         and isinstance(a.value.args[0], ast.GeneratorExp):
                     flags[a.targets[0].id] = a.value.args[0]
             for x in sends:
-                at = [_ca(a_, pol) for a_, pol in guards_at(qd, x)]
-                used = [t[1] for t in at if t[0] == "truthy" and t[1] in flags and t[3] is True]
+                raw_at = guards_at(qd, x)
+                at = [_ca(a_, pol) for a_, pol in raw_at]
+                used = [flags[t[1]] for t in at if t[0] == "truthy" and t[1] in flags and t[3] is True]
+                # the same test written in place: if any(<generator>): ... send
+                used += [a_.args[0] for a_, pol in raw_at if pol and isinstance(a_, ast.Call) and norm(a_.func) == "any" and a_.args and isinstance(a_.args[0], ast.GeneratorExp)]
                 okf = False
-                for fv in used:
-                    elt = flags[fv].elt
+                for gen_ in used:
+                    elt = gen_.elt
                     parts = elt.values if isinstance(elt, ast.BoolOp) and isinstance(elt.op, ast.And) else []
                     shp = [_ca(z) for z in parts]
                     okf = any(t[0] == "truthy" and t[1].endswith(".is_final") and t[3] for t in shp) and \
